@@ -331,6 +331,47 @@ func ruleNoInPlaceValueMutation(r *Run, rels []string, floor int) {
 				return fresh(b, depth+1, seen)
 			}
 			return false
+		case *ssa.Parameter:
+			// the container a builder helper fills: as fresh as what every caller hands it (unexported
+			// first-party helpers only, all of whose uses are direct calls)
+			h := x.Parent()
+			if h == nil || h.Parent() != nil || h.Object() == nil || h.Object().Exported() || !isFirstParty(pkgPathOf(h)) {
+				return false
+			}
+			idx := -1
+			for i, q := range h.Params {
+				if q == x {
+					idx = i
+				}
+			}
+			nCalls := 0
+			for _, g := range p.SrcFuncs() {
+				if pkgOfFunc(g) != pkgOfFunc(h) {
+					continue
+				}
+				okAll := true
+				allInstrs(g, func(in ssa.Instruction) {
+					if c, ok := in.(ssa.CallInstruction); ok && c.Common().StaticCallee() == h {
+						nCalls++
+						if idx < 0 || idx >= len(c.Common().Args) || !fresh(c.Common().Args[idx], depth+1, seen) {
+							okAll = false
+						}
+						return
+					}
+					// the helper used as a value: its callers are not all known
+					for _, op := range in.Operands(nil) {
+						if op != nil && *op == ssa.Value(h) {
+							if c, isCall := in.(ssa.CallInstruction); !isCall || c.Common().Value != ssa.Value(h) {
+								okAll = false
+							}
+						}
+					}
+				})
+				if !okAll {
+					return false
+				}
+			}
+			return nCalls > 0
 		case *ssa.Call:
 			callee := staticCallee(x)
 			if callee == nil && !x.Call.IsInvoke() {
